@@ -971,6 +971,95 @@ def sparse_probe(ctx):
     return st.st_blocks * 512 < st.st_size, st.st_blocks
 
 
+def huge_sparse(ctx, E, xz=None, B=None, key=None):
+    """One decoded zero run longer than 4 GiB (every 32-bit byte counter on the sparse path wraps): 8 KiB of data, 65 x
+    64 MiB of zeros, 8 KiB of data, as concatenated Streams (about 0.6 MiB compressed).  The expected content is known
+    analytically; the target is verified by size, head, tail and by reading every extent SEEK_DATA reports."""
+    rng = random.Random(ctx.seed ^ 0x5A125E)
+    B = B or E.B
+    head, tail = rng.randbytes(B) + b"H", b"T" + rng.randbytes(B)
+    zeros = bytes(64 << 20)
+    xz = xz or E.tool("xz", "rel")
+
+    def comp(data):
+        r = subprocess.run([xz, "-0", "-T1", "-c"], input=data, stdout=subprocess.PIPE, stderr=subprocess.PIPE, env=ENV)
+        if r.returncode != 0:
+            raise RuntimeError("preparing the huge-sparse input failed: %r" % r.stderr[-200:])
+        return r.stdout
+    blob = comp(head) + comp(zeros) * 65 + comp(tail)
+    total = len(head) + 65 * len(zeros) + len(tail)
+    d = os.path.join(ctx.scratch, "huge-sparse")
+    os.makedirs(d, exist_ok=True)
+    free = shutil.disk_usage(d).free
+    for how in ("xz-d", "xz-dc-redirect"):
+        src = os.path.join(d, "big.xz")
+        tgt = os.path.join(d, "big")
+        for pth in (src, tgt):
+            if os.path.exists(pth):
+                os.unlink(pth)
+        with open(src, "wb") as f:
+            f.write(blob)
+        if how == "xz-d":
+            r = subprocess.run([xz, "-d", "-T1", src], stdout=subprocess.PIPE, stderr=subprocess.PIPE, env=ENV, timeout=TIMEOUT * 4)
+        else:
+            with open(tgt, "wb") as out:
+                r = subprocess.run([xz, "-dc", "-T1", src], stdout=out, stderr=subprocess.PIPE, env=ENV, timeout=TIMEOUT * 4)
+        ctx.evaluations += 1
+        ctx.count("huge_sparse_runs")
+        problems = []
+        if r.returncode != 0:
+            problems.append("exit status %d (%s)" % (r.returncode, r.stderr[-200:].decode("utf-8", "replace")))
+        if not os.path.exists(tgt):
+            problems.append("no target file")
+        else:
+            st = os.stat(tgt)
+            if st.st_size != total:
+                problems.append("target has %d bytes, expected %d (difference %d)" % (st.st_size, total, total - st.st_size))
+            else:
+                with open(tgt, "rb") as f:
+                    if f.read(len(head)) != head:
+                        problems.append("head differs")
+                    f.seek(total - len(tail))
+                    if f.read() != tail:
+                        problems.append("tail differs")
+                    # everything SEEK_DATA reports between head and tail must read as zeros
+                    pos, scanned = 0, 0
+                    fd = f.fileno()
+                    while pos < total and scanned < (1 << 30):
+                        try:
+                            ds = os.lseek(fd, pos, os.SEEK_DATA)
+                        except OSError:
+                            break
+                        try:
+                            he = os.lseek(fd, ds, os.SEEK_HOLE)
+                        except OSError:
+                            he = total
+                        lo, hi = max(ds, len(head)), min(he, total - len(tail))
+                        q = lo
+                        while q < hi:
+                            f.seek(q)
+                            chunk = f.read(min(1 << 22, hi - q))
+                            scanned += len(chunk)
+                            if chunk.count(0) != len(chunk):
+                                problems.append("non-zero byte inside the zero run near offset %d" % q)
+                                q = hi
+                                break
+                            q += len(chunk)
+                        pos = max(he, pos + 1)
+                    if st.st_blocks * 512 < st.st_size:
+                        ctx.count("huge_sparse_target_has_holes")
+            if how == "xz-d" and os.path.exists(src) and r.returncode == 0:
+                problems.append("source not removed after a successful xz -d")
+        if problems:
+            ctx.violation((key or "size-differs|%s|huge-sparse") % how.split("-redirect")[0],
+                          "decoding 8 KiB + 65 x 64 MiB zeros + 8 KiB (%d bytes, one zero run > 4 GiB) with `%s`: %s; free space %d"
+                          % (total, "xz -d -T1 big.xz" if how == "xz-d" else "xz -dc -T1 big.xz > big", "; ".join(problems), free),
+                          {"how": "concatenate `xz -0 -T1` of 8193 random bytes, 65 copies of `xz -0 -T1` of 64 MiB zeros, 8193 random bytes; %s" % how})
+        for pth in (src, tgt):
+            if os.path.exists(pth):
+                os.unlink(pth)
+
+
 def run(ctx):
     tools = prepare(ctx.tier)
     E = Env(ctx, tools)
@@ -1018,6 +1107,11 @@ def run(ctx):
             for key, detail, replay in R.viols:
                 ctx.violation(key, detail, replay)
     if only in (None, ""):
+        if sparse_ok:
+            try:
+                huge_sparse(ctx, E)
+            except Exception as ex:       # harness trouble, not a verdict
+                ctx.inconclusive.append("huge-sparse case: %r" % (ex,))
         c = ctx.counters
         for s in M.ALL_SINKS:
             ctx.require("sink_" + s, c.get("sink_" + s, 0), 20)
